@@ -7,10 +7,15 @@
    removed) and 560b667 (only completed uploads are served); the handlers as they were are kept
    as [upload_gate_unrepaired] / [download_unrepaired] and refuted below.
    Sys/FilesSaveC16b.v: messagesMapper.Save and Topic.saveAndBroadcastMessage statement by statement
-   above the store slice (section "Save" below). *)
+   above the store slice (section "Save" below).
+   Sys/FilesServeC16c.v: largeFileServe with every request field the upload side has (section "The
+   download gate, every request field").  Sys/FilesDescC16c.v: Topic.replySetDesc with a fault plan
+   over its adapter calls (section "Avatar updates under store faults"). *)
 From Coq Require Import NArith ZArith List Bool.
 From Tinode Require Import Pure.Url Pure.UrlProofs Sys.Files Sys.FilesGateProofs Sys.FilesStoreProofs.
 From Tinode Require Import Sys.FilesSaveC16b Sys.FilesSaveC16bProofs.
+From Tinode Require Import Sys.FilesServeC16c Sys.FilesServeC16cProofs Sys.FilesDescC16c Sys.FilesDescC16cProofs.
+From Tinode Require Import Sys.FilesAccC16c Sys.FilesAccC16cProofs.
 Import ListNotations.
 
 (* ------------------------------------------------------------------ *)
@@ -628,6 +633,305 @@ Qed.
 Print Assumptions c16_save_row_linked_partial.
 
 (* ------------------------------------------------------------------ *)
+(* The download gate, every request field                              *)
+(* (Sys/FilesServeC16c.v: largeFileServe over a request that has EVERY field of the upload request - *)
+(*  API key at header / query / form / cookie, credentials at X-Tinode-Auth / Authorization / query / *)
+(*  form / cookie, sid in query / form, the `topic` parameter in query / form, a multipart body or    *)
+(*  none, media handler configuration)                                                                *)
+
+(* "act only on requests that carry a valid API key and valid credentials", download side, at full
+   strength: bytes are sent ONLY for a GET whose first non-empty API-key placement holds a valid key
+   and whose credentials yield a non-zero uid - for EVERY value of EVERY other field.  There is no
+   sign-up (topic=newacc) exemption on this side: the topic fields do not occur in the conclusion and
+   the next theorems say they do not occur in the decision. *)
+Theorem c16_download_needs_credentials : forall r,
+  effect_of (serve_gate_c16c r) <> ENone ->
+  dq_meth r = MGet /\ first_some (dq_keys_c16c r) = Some KValid /\
+  (exists u, auth_of (dq_creds_c16c r) (dq_sid_c16c r) = AuthUid u /\ u <> 0%N) /\
+  dq_handler r = true /\ dq_hdr r = HdrStatus 0 /\ dq_found r = true /\
+  serve_gate_c16c r = Reply 200 EServed.
+Proof. exact serve_c16c_work. Qed.
+Print Assumptions c16_download_needs_credentials.
+
+(* the reply and the effect are the same whatever the `topic` parameter says, in the query or in a form
+   field, "newacc" or not, present or absent *)
+Theorem c16_download_ignores_topic :
+  (forall r tq tf, serve_gate_c16c (dq_with_topic_c16c r tq tf) = serve_gate_c16c r) /\
+  (forall s r tq tf serve url,
+     serve_request_c16c s (dq_with_topic_c16c r tq tf) serve url = serve_request_c16c s r serve url).
+Proof. exact (conj serve_c16c_ignores_topic serve_request_c16c_ignores_topic). Qed.
+Print Assumptions c16_download_ignores_topic.
+
+(* a GET / HEAD with a valid key and NO valid credentials - no placement names a method and the sid is
+   absent, unknown or of a session that has not logged in; or the first placement holds an unknown scheme
+   or a token for the zero uid - is answered 401 and nothing is served: every other field is free *)
+Theorem c16_download_unauthenticated_refused : forall r,
+  dq_meth r = MGet \/ dq_meth r = MHead ->
+  key_check (dq_keys_c16c r) = true ->
+  (first_some (dq_creds_c16c r) = Some (CGood 0) \/ first_some (dq_creds_c16c r) = Some CUnknownScheme \/
+   (first_some (dq_creds_c16c r) = None /\ (dq_sid_c16c r = None \/ dq_sid_c16c r = Some 0%N))) ->
+  serve_gate_c16c r = Reply 401 ENone.
+Proof.
+  intros r Hm Hk Hc. apply serve_c16c_unauthenticated; [exact Hm|exact Hk|].
+  apply auth_zero_cases. exact Hc.
+Qed.
+Print Assumptions c16_download_unauthenticated_refused.
+
+(* not only bytes: ANY 200 to a GET / HEAD (HEAD's empty 200, the media handler's own status) is given only
+   behind the key check and the credential check *)
+Theorem c16_download_200_needs_credentials : forall r e,
+  dq_meth r = MGet \/ dq_meth r = MHead ->
+  (forall c, auth_of (dq_creds_c16c r) (dq_sid_c16c r) = AuthErr c -> c <> 200%Z) ->
+  serve_gate_c16c r = Reply 200 e ->
+  first_some (dq_keys_c16c r) = Some KValid /\
+  exists u, auth_of (dq_creds_c16c r) (dq_sid_c16c r) = AuthUid u /\ u <> 0%N.
+Proof. exact serve_c16c_200. Qed.
+Print Assumptions c16_download_200_needs_credentials.
+
+(* the full-field gate is the gate of Sys/Files.v on the projected request: c16_gate, c16_methods,
+   c16_refused_no_effect and c16_served_only_completed hold for it as they stand *)
+Theorem c16_download_full_is_gate :
+  (forall r, serve_gate_c16c r = serve_gate (sreq_of_c16c r)) /\
+  (forall s r serve url, serve_request_c16c s r serve url = serve_request s (sreq_of_c16c r) serve url) /\
+  (forall r, dq_meth r <> MGet -> dq_meth r <> MHead -> dq_meth r <> MOptions -> serve_gate_c16c r = Reply 405 ENone) /\
+  (forall r c e, serve_gate_c16c r = Reply c e -> c <> 200%Z -> e = ENone).
+Proof.
+  exact (conj serve_gate_c16c_eq (conj serve_request_c16c_eq (conj serve_c16c_methods serve_c16c_refused_no_effect))).
+Qed.
+Print Assumptions c16_download_full_is_gate.
+
+(* the whole download request against the store slice, every state, every request, every URL: bytes
+   only for an authenticated GET with a valid key, and they are those of the completed upload the URL names *)
+Theorem c16_download_full_served_only_completed :
+  (forall s r serve url o f,
+     serve_request_c16c s r serve url = (o, Some f) ->
+     o = Reply 200 EServed /\ dq_meth r = MGet /\ first_some (dq_keys_c16c r) = Some KValid /\
+     (exists u, auth_of (dq_creds_c16c r) (dq_sid_c16c r) = AuthUid u /\ u <> 0%N) /\
+     download s serve url = Some f /\
+     f_done f = true /\ In f (files s) /\ get_id_from_url serve url = f_id f /\ In (f_id f) (disk s)) /\
+  (forall s r serve url o, serve_request_c16c s r serve url = (o, None) -> effect_of o = ENone).
+Proof. exact (conj serve_request_c16c_served serve_request_c16c_nothing). Qed.
+Print Assumptions c16_download_full_served_only_completed.
+
+(* the gate AS IT WOULD BE with the upload side's exemption (`uid.IsZero() && FormValue("topic") !=
+   "newacc"`): the statement is refuted for it, and it differs from the real gate exactly on requests
+   with a valid key, no valid credentials and topic=newacc *)
+Definition c16_download_exempt_statement : Prop :=
+  forall r, effect_of (serve_gate_exempt_c16c r) <> ENone ->
+    exists u, auth_of (dq_creds_c16c r) (dq_sid_c16c r) = AuthUid u /\ u <> 0%N.
+
+Theorem c16_download_exempt_refuted : ~ c16_download_exempt_statement.
+Proof.
+  intros H. destruct (H exempt_witness_c16c) as [u [Ha Hu]].
+  - rewrite exempt_witness_served. discriminate.
+  - rewrite exempt_witness_no_credentials in Ha. inversion Ha. congruence.
+Qed.
+Print Assumptions c16_download_exempt_refuted.
+
+Theorem c16_download_exempt_differs_only_unauthenticated_newacc : forall r,
+  serve_gate_exempt_c16c r <> serve_gate_c16c r ->
+  (dq_meth r = MGet \/ dq_meth r = MHead) /\ key_check (dq_keys_c16c r) = true /\
+  auth_of (dq_creds_c16c r) (dq_sid_c16c r) = AuthUid 0 /\ dq_newacc_c16c r = true.
+Proof. exact exempt_differs_iff. Qed.
+Print Assumptions c16_download_exempt_differs_only_unauthenticated_newacc.
+
+(* ------------------------------------------------------------------ *)
+(* Avatar updates under store faults                                   *)
+(* (Sys/FilesDescC16c.v: Topic.replySetDesc = [UserUpdate | TopicUpdate] ; [SubsUpdate] ;          *)
+(*  [FileLinkAttachments, error ignored], the third only after the first two succeeded; fault plan *)
+(*  over the three calls, 'me' / 'fnd' / p2p / group topics, every request environment)            *)
+
+(* "a refused request has no effect", for the link table: a {set desc} that is answered with anything but
+   200 - denied, malformed, not modified, or a core / subscription update that failed in the store -
+   leaves upload records, link rows and bytes exactly as they were (the old avatar stays linked), and
+   FileLinkAttachments was not called.  Every fault plan, topic kind, request, store state. *)
+Theorem c16_set_desc_refused_keeps_links : forall ft handler serve s cat tname as_uid rq,
+  snd (set_desc_c16c ft handler serve s cat tname as_uid rq) <> SetOkC16c ->
+  dd_fs (fst (set_desc_c16c ft handler serve s cat tname as_uid rq)) = dd_fs s /\
+  forall b, ~ In (DFileLinkC16c, b) (expected_calls_c16c ft handler serve cat rq).
+Proof. exact set_desc_refused_fs. Qed.
+Print Assumptions c16_set_desc_refused_keeps_links.
+
+(* the order of the adapter calls of the request (memverif's call log is compared with it on every
+   generated {set desc}): core update; then, unless it failed, the subscription update; then, unless one
+   of them failed, the link call - iff `core` is not empty, attachments are listed, a media handler is
+   configured and the list resolves to at least one id *)
+Theorem c16_set_desc_calls : forall ft handler serve s cat tname as_uid rq,
+  rev (dd_calls (fst (set_desc_c16c ft handler serve s cat tname as_uid rq))) =
+  rev (dd_calls s) ++
+  match sq_pre rq with
+  | PreOkC16c =>
+    if negb (is_modified_c16c rq) then []
+    else
+      core_calls_c16c (df_core ft) cat (sq_core rq) ++
+      (if core_err_c16c (df_core ft) cat (sq_core rq) then [] else subs_calls_c16c (df_subs ft) (sq_sub rq)) ++
+      (if upd_err_c16c ft cat rq then [] else link_calls_c16c (df_link ft) handler serve (sq_core rq) (sq_urls rq))
+  | _ => []
+  end.
+Proof. exact set_desc_calls. Qed.
+Print Assumptions c16_set_desc_calls.
+
+(* the reply: 500 exactly when the core or the subscription update failed *)
+Theorem c16_set_desc_failed_iff : forall ft handler serve s cat tname as_uid rq,
+  snd (set_desc_c16c ft handler serve s cat tname as_uid rq) = SetFailedC16c <->
+  sq_pre rq = PreOkC16c /\ is_modified_c16c rq = true /\ upd_err_c16c ft cat rq = true.
+Proof. exact set_desc_failed_iff. Qed.
+Print Assumptions c16_set_desc_failed_iff.
+
+(* an acknowledged {set desc} is the avatar operation of the history model (when the link call is due and
+   does not fail) or leaves the file slice alone: every history theorem above applies to what follows *)
+Theorem c16_set_desc_is_avatar_op : forall ft handler serve s cat tname as_uid rq,
+  snd (set_desc_c16c ft handler serve s cat tname as_uid rq) = SetOkC16c ->
+  dd_fs (fst (set_desc_c16c ft handler serve s cat tname as_uid rq)) =
+    (if link_due_c16c handler serve (sq_core rq) (sq_urls rq) && negb (df_link ft)
+     then step (dd_fs s) (avatar_op_c16c cat tname as_uid (resolve serve (sq_urls rq)))
+     else dd_fs s).
+Proof. exact set_desc_ok_fs. Qed.
+Print Assumptions c16_set_desc_is_avatar_op.
+
+(* an acknowledged one links the new avatar and releases the old: the first listed id that names an
+   upload record is linked to the topic / user, it is its ONLY link, every other link row is as before *)
+Theorem c16_set_desc_ok_links_new_releases_old : forall ft handler serve s cat tname as_uid rq f rest,
+  snd (set_desc_c16c ft handler serve s cat tname as_uid rq) = SetOkC16c ->
+  sq_core rq <> None -> handler = true -> df_link ft = false ->
+  resolve serve (sq_urls rq) = f :: rest ->
+  let tg := owner_target_c16c cat tname as_uid in
+  memN f (file_ids (dd_fs s)) = true -> target_live (dd_fs s) tg = true ->
+  let ls := links (dd_fs (fst (set_desc_c16c ft handler serve s cat tname as_uid rq))) in
+  In (f, tg) ls /\
+  (forall a, In (a, tg) ls -> a = f) /\
+  (forall a t, t <> tg -> (In (a, t) ls <-> In (a, t) (links (dd_fs s)))).
+Proof. exact set_desc_ok_links. Qed.
+Print Assumptions c16_set_desc_ok_links_new_releases_old.
+
+(* over ALL histories: the avatar a of a topic / user (linked by h1's last operation), any operations h2
+   that neither delete the owner nor replace the avatar, then a {set desc} that is REFUSED (any reason, any
+   fault plan), then any such operations h3 - garbage collection with any bound and limit included: a is
+   still linked, still a record, its bytes are still there *)
+Theorem c16_refused_set_desc_keeps_avatar : forall h1 tg a rest h2 ft handler serve pb pv cl cat tname as_uid rq h3,
+  match tg with TMsg _ => False | _ => True end ->
+  let s1 := run h1 in
+  memN a (file_ids s1) = true -> target_live s1 tg = true -> is_done a (files s1) = true ->
+  forallb (avatar_kept tg) h2 = true ->
+  let s2 := run_from (link_single s1 tg (a :: rest)) h2 in
+  let r := set_desc_c16c ft handler serve {| dd_fs := s2; dd_public := pb; dd_private := pv; dd_calls := cl |}
+             cat tname as_uid rq in
+  snd r <> SetOkC16c ->
+  forallb (avatar_kept tg) h3 = true ->
+  let s3 := run_from (dd_fs (fst r)) h3 in
+  dd_fs (fst r) = s2 /\
+  In (a, tg) (links s3) /\ In a (file_ids s3) /\ In a (disk s3) /\ is_done a (files s3) = true.
+Proof. exact refused_set_desc_keeps_avatar. Qed.
+Print Assumptions c16_refused_set_desc_keeps_avatar.
+
+(* ... and the avatar listed with an ACKNOWLEDGED {set desc} (link call not failing, completed upload,
+   existing owner) is linked and stored for as long as the owner exists and the avatar is not replaced *)
+Theorem c16_acknowledged_set_desc_avatar_kept : forall h1 ft handler serve pb pv cl cat tname as_uid rq f rest h2,
+  let s1 := run h1 in
+  let tg := owner_target_c16c cat tname as_uid in
+  let r := set_desc_c16c ft handler serve {| dd_fs := s1; dd_public := pb; dd_private := pv; dd_calls := cl |}
+             cat tname as_uid rq in
+  snd r = SetOkC16c ->
+  sq_core rq <> None -> handler = true -> df_link ft = false ->
+  resolve serve (sq_urls rq) = f :: rest ->
+  memN f (file_ids s1) = true -> target_live s1 tg = true -> is_done f (files s1) = true ->
+  forallb (avatar_kept tg) h2 = true ->
+  let s2 := run_from (dd_fs (fst r)) h2 in
+  In (f, tg) (links s2) /\ In f (file_ids s2) /\ In f (disk s2) /\ is_done f (files s2) = true.
+Proof. exact ok_set_desc_links_avatar. Qed.
+Print Assumptions c16_acknowledged_set_desc_avatar_kept.
+
+(* replySetDesc AS IT WOULD BE with the link made before the store updates: "a refused request has no
+   effect on the link table" is refuted - the update fails, the reply is 500, the record keeps its old
+   public, the old avatar has lost its link and the next GC run removes it *)
+Definition c16_set_desc_link_first_statement : Prop :=
+  forall ft handler serve s cat tname as_uid rq a,
+    snd (set_desc_link_first_c16c ft handler serve s cat tname as_uid rq) <> SetOkC16c ->
+    linked a (links (dd_fs s)) = true ->
+    linked a (links (dd_fs (fst (set_desc_link_first_c16c ft handler serve s cat tname as_uid rq)))) = true.
+
+Theorem c16_set_desc_link_first_refuted : ~ c16_set_desc_link_first_statement.
+Proof.
+  intros H. destruct link_first_witness as [W1 [W2 [W3 _]]].
+  specialize (H lf_faults_c16c true lf_serve_c16c lf_state_c16c CatGrpC16c 1%N 5%N lf_request_c16c (parse_uid lf_name_a_c16c)).
+  rewrite W3 in H. rewrite W1 in H.
+  assert (X : SetFailedC16c <> SetOkC16c) by discriminate.
+  specialize (H X W2). discriminate H.
+Qed.
+Print Assumptions c16_set_desc_link_first_refuted.
+
+(* "the avatar listed with an acknowledged update is linked", without the scope: refuted by the handler's own
+   treatment of the link call - its error is logged and ignored ("not a critical error"), the request is
+   acknowledged, the record refers to the new avatar and the new avatar has no link.  A store failure, not
+   a refusal; [c16_set_desc_ok_links_new_releases_old] is the statement with [df_link ft = false]. *)
+Definition c16_set_desc_ok_linked_statement : Prop :=
+  forall ft serve s cat tname as_uid rq f rest,
+    snd (set_desc_c16c ft true serve s cat tname as_uid rq) = SetOkC16c ->
+    sq_core rq <> None -> resolve serve (sq_urls rq) = f :: rest ->
+    memN f (file_ids (dd_fs s)) = true -> target_live (dd_fs s) (owner_target_c16c cat tname as_uid) = true ->
+    linked f (links (dd_fs (fst (set_desc_c16c ft true serve s cat tname as_uid rq)))) = true.
+
+Theorem c16_set_desc_ok_linked_refuted : ~ c16_set_desc_ok_linked_statement.
+Proof.
+  intros H. destruct link_ignored_witness as [W1 [_ [W3 _]]].
+  specialize (H li_faults_c16c lf_serve_c16c lf_state_c16c CatGrpC16c 1%N 5%N lf_request_c16c
+                (parse_uid lf_name_b_c16c) [] W1).
+  rewrite W3 in H.
+  assert (X : false = true); [|discriminate X].
+  apply H; [discriminate|vm_compute; reflexivity|vm_compute; reflexivity|vm_compute; reflexivity].
+Qed.
+Print Assumptions c16_set_desc_ok_linked_refuted.
+
+Theorem c16_set_desc_ok_linked_partial : forall ft serve s cat tname as_uid rq f rest,
+  snd (set_desc_c16c ft true serve s cat tname as_uid rq) = SetOkC16c ->
+  sq_core rq <> None -> resolve serve (sq_urls rq) = f :: rest ->
+  memN f (file_ids (dd_fs s)) = true -> target_live (dd_fs s) (owner_target_c16c cat tname as_uid) = true ->
+  df_link ft = false ->
+  linked f (links (dd_fs (fst (set_desc_c16c ft true serve s cat tname as_uid rq)))) = true.
+Proof.
+  intros ft serve s cat tname as_uid rq f rest Hok Hc Hr Hf Ht Hl.
+  destruct (set_desc_ok_links ft true serve s cat tname as_uid rq f rest Hok Hc eq_refl Hl Hr Hf Ht) as [Hin _].
+  exact (linked_In _ _ _ Hin).
+Qed.
+Print Assumptions c16_set_desc_ok_linked_partial.
+
+(* ---- account creation ({acc user="new"}, Sys/FilesAccC16c.v: AuthGetUniqueRecord ; UserCreate ; TopicShare ;
+   AuthAddRecord ; [credentials] ; FileLinkAttachments - the link call LAST; a failure after UserCreate deletes
+   the account again) ---- *)
+
+(* an {acc user="new"} that does not create the account (whatever its reply code: the AddRecord failure is
+   answered 200 by the code as it is, see FilesAccC16c.v) - IsUnique, UserCreate, the me/fnd subscriptions, AddRecord or the credentials
+   failing, in the state reached by ANY history, for a fresh account id - leaves upload records, link rows,
+   bytes, topics and users exactly as they were, and FileLinkAttachments was not called *)
+Theorem c16_create_user_refused_no_effect : forall h ft handler serve cl uid creds_ok urls,
+  let s := {| aa_fs := run h; aa_calls := cl |} in
+  memN uid (users (run h)) = false ->
+  ao_created (snd (create_user_c16c ft handler serve s uid creds_ok urls)) = false ->
+  aa_fs (fst (create_user_c16c ft handler serve s uid creds_ok urls)) = run h /\
+  forall b, ~ In (AFileLinkC16c, b) (acc_calls_c16c ft handler serve creds_ok urls).
+Proof. exact create_user_refused. Qed.
+Print Assumptions c16_create_user_refused_no_effect.
+
+(* whether the account exists afterwards, the reply code, the adapter calls in the order they are made (compared with memverif's call log on every generated
+   account creation), and the file slice: account creation followed by the avatar operation of the history model *)
+Theorem c16_create_user_calls : forall ft handler serve s uid creds_ok urls,
+  let r := create_user_c16c ft handler serve s uid creds_ok urls in
+  (ao_created (snd r) = false <-> acc_refused_c16c ft creds_ok = true) /\
+  ao_code (snd r) = acc_code_c16c ft creds_ok /\
+  rev (aa_calls (fst r)) = rev (aa_calls s) ++ acc_calls_c16c ft handler serve creds_ok urls /\
+  (ao_created (snd r) = true ->
+   aa_fs (fst r) =
+     (if acc_link_due_c16c handler serve urls && negb (af_link ft)
+      then step (step (aa_fs s) (OAddUser uid)) (OUserAvatar uid (resolve serve urls))
+      else step (aa_fs s) (OAddUser uid))).
+Proof.
+  intros ft handler serve s uid creds_ok urls r.
+  destruct (create_user_char ft handler serve s uid creds_ok urls) as [O [K [C _]]].
+  exact (conj O (conj K (conj C (create_user_created ft handler serve s uid creds_ok urls)))).
+Qed.
+Print Assumptions c16_create_user_calls.
+
+(* ------------------------------------------------------------------ *)
 (* non-vacuity                                                          *)
 
 Example c16_ex_upload_ok :
@@ -682,3 +986,25 @@ Example c16_ex_save_write_only_sender :
   snd (pub_save_c16b no_faults_c16b true serve c16_save_witness_state false 47 47 0 1 7 [url]) = PubAccepted true /\
   snd (pub_save_c16b no_faults_c16b true serve c16_save_witness_state false 11 47 0 1 7 [url]) = PubDenied.
 Proof. vm_compute. repeat split. Qed.
+
+Example c16_ex_download_newacc :
+  (* GET with a valid key in the query, topic=newacc in the query, no credentials: 401 - and 200 with a token *)
+  let r := exempt_witness_c16c in
+  serve_gate_c16c r = Reply 401 ENone /\
+  serve_gate_c16c {| dq_meth := MGet; dq_key_hdr := None; dq_key_query := None; dq_key_form := Some KValid; dq_key_cookie := None;
+     dq_cred_xauth := None; dq_cred_authz := None; dq_cred_query := None; dq_cred_form := None; dq_cred_cookie := Some (CGood 3);
+     dq_sid_query := None; dq_sid_form := Some 0%N; dq_topic_query := None; dq_topic_form := Some true;
+     dq_body_form := true; dq_handler := true; dq_hdr := HdrStatus 0; dq_found := true |} = Reply 200 EServed.
+Proof. vm_compute. split; reflexivity. Qed.
+
+Example c16_ex_set_desc_fault :
+  (* group topic 1 with avatar a; {set desc public, attachments [b]} while TopicUpdate fails: 500, a stays
+     linked and survives the GC; without the fault: 200, b is linked, a is released and collected *)
+  let r := set_desc_c16c lf_faults_c16c true lf_serve_c16c lf_state_c16c CatGrpC16c 1 5 lf_request_c16c in
+  let r' := set_desc_c16c no_desc_faults_c16c true lf_serve_c16c lf_state_c16c CatGrpC16c 1 5 lf_request_c16c in
+  snd r = SetFailedC16c /\ rev (dd_calls (fst r)) = [(DTopicUpdateC16c, true)] /\
+  links (dd_fs (fst r)) = [(parse_uid lf_name_a_c16c, TTopic 1)] /\
+  snd r' = SetOkC16c /\ rev (dd_calls (fst r')) = [(DTopicUpdateC16c, false); (DFileLinkC16c, false)] /\
+  links (dd_fs (fst r')) = [(parse_uid lf_name_b_c16c, TTopic 1)] /\
+  file_ids (step (dd_fs (fst r')) (OGC None 0)) = [parse_uid lf_name_b_c16c].
+Proof. vm_compute. repeat split; reflexivity. Qed.
